@@ -44,6 +44,8 @@ type firing struct {
 
 type wEvent struct {
 	Ev    string   `json:"ev"`
+	R     string   `json:"r"` // the expansion step (rule, alternative) of the derivation machine that produced the sentence
+	I     int      `json:"i"`
 	Text  string   `json:"text"`
 	Want  []string `json:"want"`  // kinds of the generated sentence
 	Kinds []string `json:"kinds"` // kinds the real lexer produced for the text (without the final EOF)
@@ -299,7 +301,7 @@ func witness(sents []sentence) {
 		kinds, end := lexKinds(text)
 		fir := []firing{}
 		acc := parsePlain(text, &fir)
-		tw.Emit(wEvent{Ev: "W", Text: text, Want: kindsOf(s.S), Kinds: kinds, End: end, Acc: acc, Fir: fir})
+		tw.Emit(wEvent{Ev: "W", R: s.R, I: s.I, Text: text, Want: kindsOf(s.S), Kinds: kinds, End: end, Acc: acc, Fir: fir})
 		stats["w"]++
 	}
 }
@@ -710,9 +712,42 @@ func historyMode(sents []sentence, nbases, nprobes, nrandom int) {
 	}
 }
 
+// textsMode replays logged cases: {"text": t} -> event P, {"text": t, "w": true} -> event W,
+// {"hist": [..], "text": t} -> event A.
+func textsMode(path string) {
+	f, err := os.Open(path)
+	must(err)
+	defer f.Close()
+	sc := bufio.NewScanner(f)
+	sc.Buffer(make([]byte, 1<<20), 1<<26)
+	for sc.Scan() {
+		if len(strings.TrimSpace(sc.Text())) == 0 {
+			continue
+		}
+		var c struct {
+			Text string   `json:"text"`
+			W    bool     `json:"w"`
+			Hist []string `json:"hist"`
+		}
+		must(json.Unmarshal(sc.Bytes(), &c))
+		switch {
+		case c.Hist != nil:
+			emitA("replay", c.Hist, c.Text)
+		case c.W:
+			kinds, end := lexKinds(c.Text)
+			fir := []firing{}
+			acc := parsePlain(c.Text, &fir)
+			tw.Emit(wEvent{Ev: "W", Text: c.Text, Want: kinds, Kinds: kinds, End: end, Acc: acc, Fir: fir})
+		default:
+			emitP("replay", c.Text)
+		}
+	}
+	must(sc.Err())
+}
+
 func main() {
 	if len(os.Args) < 2 {
-		must(fmt.Errorf("usage: parsedrv witness|parse|history ..."))
+		must(fmt.Errorf("usage: parsedrv witness|parse|history|texts ..."))
 	}
 	mode := os.Args[1]
 	fs := flag.NewFlagSet(mode, flag.ExitOnError)
@@ -733,6 +768,15 @@ func main() {
 	var err error
 	tw, err = trace.New(*out)
 	must(err)
+	if mode == "texts" {
+		textsMode(*in)
+		must(tw.Close())
+		if *statsPath != "" {
+			b, _ := json.Marshal(stats)
+			must(os.WriteFile(*statsPath, b, 0o644))
+		}
+		return
+	}
 	sents := readSentences(*in)
 	switch mode {
 	case "witness":
